@@ -93,6 +93,17 @@ theorem url_region_decodes (c : Ctx) (inner : List Bound) (p : Bytes) (h : c.bnd
   rw [outermost_last c .url inner p h]
   exact ⟨C09.url_roundtrip _, C09.url_alphabet _⟩
 
+/-- **Regions are lexical.** An outermost rendering starts outside every region, whatever an earlier rendering
+    on the same context left open (exit, error, missing end tag): nothing of this rendering is escaped because
+    of a tag of another one. -/
+theorem render_starts_outside_regions (reg : Registry) (fuel : Nat) (nodes : List Node) (s : St) :
+    write reg fuel nodes s = writeBody reg fuel nodes s.topStart ∧ s.topStart.c.bnd = [] ∧
+    s.topStart.c.vars = s.c.vars ∧ s.topStart.w = s.w := ⟨rfl, rfl, rfl, rfl⟩
+
+/-- … in particular what an open tag of the previous rendering would have done to the first chunk does not happen. -/
+theorem leftover_region_ignored (c : Ctx) (p : Bytes) : regionEscape ({ c := c, w := {} } : St).topStart.c p = p := by
+  simp [St.topStart, regionEscape]
+
 /-! Non-vacuity: nested and mixed regions. -/
 example : regionEscape { bnd := [.json, .html] } (lit "<\"") = Html.escape (Json.escape (lit "<\"")) := by decide
 example : ([Bound.json, .html, .json] : List Bound).erase .json = [.html, .json] := by decide
